@@ -111,6 +111,22 @@ func corrupt(c *fw.Ctx, cur, prev []byte) (out []byte, kind, detail string) {
 		// damage aimed at the stored party table: an entry twice, an entry missing
 		kind = "field"
 		if tree, err := mut.Decode(cur); err == nil {
+			// the stored threshold set to exactly the size of the table (one past the largest valid value)
+			if c.S.Draw(3, "table-threshold") == 2 {
+				size := -1
+				for _, n := range mut.Nodes(tree) {
+					cl := n.Path.Class()
+					if (n.Shape == "array" && cl == ".Public") || (n.Shape == "map" && (cl == ".VerificationShares" || cl == ".VerificationShares.@blob")) {
+						size = n.Len
+					}
+				}
+				if _, ok := mut.Get(tree, mut.Path{"Threshold"}); ok && size > 0 {
+					enc := mut.Encode(mut.Set(mut.Clone(tree), mut.Path{"Threshold"}, uint64(size)))
+					if !bytes.Equal(enc, cur) {
+						return enc, "field:threshold-equals-table-size", fmt.Sprintf("threshold=%d@.Threshold", size)
+					}
+				}
+			}
 			for _, n := range mut.Nodes(tree) {
 				cl := n.Path.Class()
 				var ops []string
